@@ -1,6 +1,7 @@
 (* props/C13.v — C13: a crashed holder never leaves the FileLock stuck.
    ONLY theorem statements about the executable model FLock.v, each closed by a
-   lemma of FLockCrash.v (invariants: FLockInv.v, FLockTL.v, FLockFD.v, FLockMutex.v).
+   lemma of FLockCrash.v (invariants: FLockInv.v, FLockTL.v, FLockFD.v, FLockMutex.v), of
+   FLockMon13.v (monitor completeness) or of FLockSound.v (monitor soundness).
 
    What is assumed and what is proved.  [ECrash p] / [crash s p] is the KERNEL
    ASSUMPTION: when process p dies every open file description of p is closed, and a
